@@ -303,14 +303,19 @@ def run_check(pid, tier, seed):
     # 3. correspondence
     corr = {"n": 0, "diffs": [], "timeouts": [], "distinct_nontrivial": 0, "samples": []}
     lines = []
+    budget = 900 if tier == "quick" else 4 * 3600
+    hung = []
     try:
-        lines = list(mod.correspondence(ctx))
-        if pr.get("driver_ok"):
-            corr = correspondence(lines, ctx)
-            for d in corr["diffs"][:20]:
-                broke.append({"kind": "correspondence", "what": "model and implementation disagree", **d})
-        else:
-            broke.append({"kind": "correspondence", "what": "driver unavailable, correspondence not run"})
+        with core.Watch(budget) as w:
+            lines = list(mod.correspondence(ctx))
+            if pr.get("driver_ok"):
+                corr = correspondence(lines, ctx)
+                for d in corr["diffs"][:20]:
+                    broke.append({"kind": "correspondence", "what": "model and implementation disagree", **d})
+            else:
+                broke.append({"kind": "correspondence", "what": "driver unavailable, correspondence not run"})
+        if w.fired:
+            hung.append("generating / running the correspondence stream")
     except Exception as e:
         broke.append({"kind": "correspondence", "what": "harness error: %r" % (e,), "trace": traceback.format_exc()[-1500:]})
     # 4. oracle search on the real code (bigger budget when something broke)
@@ -318,9 +323,16 @@ def run_check(pid, tier, seed):
     ctx.search_mode = bool(broke)
     failures = []
     try:
-        failures = list(mod.oracles(ctx, hints))
+        with core.Watch(budget) as w:
+            failures = list(mod.oracles(ctx, hints))
+        if w.fired:
+            hung.append("the oracle search")
     except Exception as e:
         broke.append({"kind": "oracle", "what": "oracle harness error: %r" % (e,), "trace": traceback.format_exc()[-1500:]})
+    for h in hung:
+        failures.append(Failure("watchdog", {"phase": h, "budget_s": budget},
+                                "an operation on the real code did not finish: %s exceeded its %d s watchdog" % (h, budget),
+                                {"check": "timeout", "phase": h}))
     for l in corr.get("timeouts", []):
         failures.append(Failure("watchdog", {"line": l}, "operation did not finish within the watchdog", {"check": "timeout"}))
     known = load_known(pid)
